@@ -368,6 +368,9 @@ pub unsafe fn i_add_stream<RW: QueueRW<Pay>>(n: usize, budget: usize, shared: bo
     let en: u32 = (1 << A_CONSUME) | (1 << A_PUBLISH);
     env_reset(&w, false, budget, en);
     env_set_me_reader(0, &rx.reader);
+    // add_stream has a single observation point between reading the parent's position and publishing the
+    // list: the whole budget may be spent there
+    ENV_PER_POINT = budget;
     G_ADDING_STREAM = true;
     let p0 = a0.pos[0];
     rt::ENV_MODE = ENV_PROTOCOL;
